@@ -173,6 +173,15 @@ CLAIMED.update({
    technique="translation of the CLI option plumbing + Coq evaluation/lifting + serialisation round-trip differential through API and CLI on /repo",
    ref="4 (C18)"),
 })
+CLAIMED.update({
+ "C09": dict(
+   text="PARTIAL by design. Proved for the evaluator model: validating the shapes in any other order (the iteration order of the set of shapes) gives the same verdict and a permutation of the results (for any environment, data, options without abort_on_first); the environment is a look-up table whose order is immaterial when shape identifiers are distinct; "
+        "a pick of an arbitrary element from a singleton set is choice-independent. NOT a theorem: independence of the real code from triple insertion order, blank-node labels, prefix bindings and PYTHONHASHSEED. That is decided by a multi-process differential: every case is validated in a baseline process and in further processes with other hash seeds, shuffled insertion order, consistently relabelled blank nodes and other prefix bindings; "
+        "verdict, result count of the text and the multiset of results (blank nodes named by their descriptions, nested details included) must be equal. Families: nested shapes, all core components, SPARQL constraints/components, rule sets with distinct sh:order through shacl_rules() and validate(advanced).",
+   note=BASE_NOTE + "The order theorem is tied to /repo by the model-vs-implementation correspondence run with shuffled shape order. Default-message wording is not compared (the property allows its order to vary).",
+   technique="Coq proof (permutation invariance of the shape loop) + vm_compute correspondence + multi-process hash-seed / permutation / relabelling differential on /repo",
+   ref="4 (C09)"),
+})
 NOT_YET = {}
 ALL = ["C%02d" % i for i in range(1, 21)]
 REASONS = {}
